@@ -196,12 +196,19 @@ def replay_row(date, n, row):
             return {"raises": f"{type(e).__name__}: {e}"[:160]}
 
 
-def run(tier):
-    ck = common.Check("C08", tier)
-    dates, st = date_classes(tier)
+def _chunk(ck, dates):
     seen = set()
     for d in dates:
         check_date(ck, d, seen)
+    ck.extra["distinct_signatures"] = ck.extra.get("distinct_signatures", 0) + len(seen)
+
+
+def run(tier):
+    ck = common.Check("C08", tier)
+    dates, st = date_classes(tier)
+    chunks = [dates[i::common.JOBS] for i in range(common.JOBS) if dates[i::common.JOBS]]
+    common.run_parallel(ck, _chunk, chunks)
+    seen = range(ck.extra.get("distinct_signatures", 0))
     ck.bounds = {"date_classes": len(dates), "distinct_rule_error_signatures": len(seen),
                  "persons": "rule-local: 1 row of free parents; cones from root inputs: single person, then household templates (adults, children) in " + str(TEMPLATES),
                  "window": "quick: 8 dates >= 2015; thorough: one representative per distinct environment >= 2015",
